@@ -1,7 +1,9 @@
 (* C17 — equality, ordering, hashing and formatting depend on the text alone. *)
 From Coq Require Import Lia Arith ZArith List Bool.
 From LS Require Import Base Utf8 Utf8Spec Cmd Impl Wp Exec Inv Specs Specs2 WF Spec Refine Main.
+From LSGen Require Import GenSrc.
 From LSProps Require Import C01.
+From Coq Require Import String.
 Open Scope N_scope.
 
 (* PartialEq / Ord / Hash / Display / Debug / Borrow / AsRef / Deref all go through as_str() (checked textually by
@@ -30,6 +32,21 @@ Proof.
   destruct (C17_as_bytes_is_text w j r2 HW H2) as (m2 & -> & _). cbn [fst]. rewrite E. reflexivity.
 Qed.
 
+(* tie A for this property: in the source regenerated on this run, every comparison / hashing / formatting / borrowing
+   impl of lib.rs (Deref, Display, Debug, AsRef<str|OsStr|[u8]>, Borrow, the nine PartialEq impls, Ord, PartialOrd, Hash)
+   calls nothing but as_str / as_bytes / as_ref and the corresponding operation of str — so what they compute is a
+   function of the bytes C17_as_bytes_is_text describes *)
+Definition text_only (calls : list string) : bool :=
+  forallb (fun c => existsb (String.eqb c)
+    ["as_str"; "as_bytes"; "as_ref"; "eq"; "cmp"; "hash"; "fmt"; "new"; "Some"]%string) calls.
+Definition is_view_fn (name : string) : bool :=
+  existsb (fun p => String.prefix p name) ["deref#"; "fmt#"; "as_ref#"; "borrow#"; "eq#"; "cmp#"; "partial_cmp#"; "hash#"]%string.
+Theorem C17_views_go_through_as_str :
+  forallb (fun e => match e with (file, name, calls) =>
+             negb (String.eqb file "lib" && is_view_fn name) || text_only calls end) wrappers = true
+  /\ List.length (filter (fun e => match e with (file, name, _) => String.eqb file "lib" && is_view_fn name end) wrappers) = 19%nat.
+Proof. vm_compute. split; reflexivity. Qed.
+
 (* non-vacuity: the same text held inline after a pop (stale byte behind the end), on the heap with slack, and as a
    truncated static *)
 Example C17_example :
@@ -44,4 +61,5 @@ Proof. vm_compute. repeat split; reflexivity. Qed.
 
 Print Assumptions C17_as_bytes_is_text.
 Print Assumptions C17_repr_independent.
+Print Assumptions C17_views_go_through_as_str.
 Print Assumptions C17_example.
